@@ -2,8 +2,9 @@
 //
 // Sequential parts (a) traversal-limit accounting, (b) depth limit on every
 // access path, (d) recursive consumers are bounded.  Part (c), concurrent
-// readers, needs the controlled scheduler (engine E2) and is NOT implemented
-// here; see the TODO family list at the end of families().
+// readers, runs under the controlled scheduler (engine E2, message.go
+// instrumented incl. its atomics) and lives in concurrent.go (family
+// c-concurrent-readers).
 package main
 
 import (
@@ -872,15 +873,8 @@ func families(tier string) []vlib.Family {
 	})
 	fams = append(fams, defaultBudgetFamily(pSpaces[1:], ts))
 
-	// TODO C02(c) — concurrent readers (engine E2, message.go instrumented
-	// with vatomic/vsync; not part of this harness yet).  Families to add:
-	//   c-readers-2x1: 2 reader threads, 1 dereference each, sizes s1,s2 and
-	//       T in {s1+s2-8, s1+s2, max(s1,s2), 0}
-	//   c-readers-2x2, c-readers-3x1: 2 threads x 2 dereferences, 3 threads x 1
-	//   c-readers-unread: one of the threads calls Unread(s) / ResetReadLimit(T')
-	//   all interleavings of the atomic Load/CAS/Store/Add, Once.Do and mu
-	//   operations, unbounded; oracle: the granted set is the result of SOME
-	//   sequential order of a saturating counter, sum(granted) <= T.
+	// C02(c) — concurrent readers (engine E2): see concurrent.go
+	fams = append(fams, concurrentFamily(tier))
 	return fams
 }
 
